@@ -161,26 +161,29 @@ Proof. intros d. unfold SUPPORTED. rewrite <- !lk_mem. rewrite table_lookup. ref
 Definition dtable := list (string * (list dtok * list string * list ptok)).
 
 (* the local `build` functions of Model/Strftime.v, named *)
-Fixpoint build_d (T : dtable) (items : list fitem) : option (list dtok * list string) :=
+Section Build.
+Variable T : dtable.
+Fixpoint build_d (items : list fitem) : option (list dtok * list string) :=
   match items with
   | [] => Some ([], [])
-  | FLit s :: r => match build_d T r with Some (t, ps) => Some (DLit s :: t, ps) | None => None end
+  | FLit s :: r => match build_d r with Some (t, ps) => Some (DLit s :: t, ps) | None => None end
   | FDir d :: r =>
-    match lookup_dir d T, build_d T r with
+    match lookup_dir d T, build_d r with
     | Some (dt, dp, _), Some (t, ps) => Some (dt ++ t, dp ++ ps)%list
     | _, _ => None
     end
   end.
-Fixpoint build_p (T : dtable) (items : list fitem) : option (list ptok) :=
+Fixpoint build_p (items : list fitem) : option (list ptok) :=
   match items with
   | [] => Some []
-  | FLit s :: r => match build_p T r with Some t => Some (PLit s :: t) | None => None end
+  | FLit s :: r => match build_p r with Some t => Some (PLit s :: t) | None => None end
   | FDir d :: r =>
-    match lookup_dir d T, build_p T r with
+    match lookup_dir d T, build_p r with
     | Some (_, _, pt), Some t => Some (pt ++ t)%list
     | _, _ => None
     end
   end.
+End Build.
 
 Definition stray_pct (items : list fitem) : bool :=
   existsb (fun it => match it with FLit l => contains_char "%" l | FDir _ => false end) items.
@@ -277,4 +280,569 @@ Proof.
   split.
   - rewrite strftime_unfold. unfold fmt. rewrite (build_d_refuses _ _ _ I L). reflexivity.
   - rewrite strptime_unfold. unfold fmt. rewrite (build_p_refuses _ _ _ I L). reflexivity.
+Qed.
+
+(* ================================================================== *)
+(* 4. the civil fields of a normal calendar/ordinal point              *)
+(* ================================================================== *)
+Lemma floor_unique x n : (inject_Z n <= x)%Q -> (x < inject_Z (n + 1))%Q -> Qfloor x = n.
+Proof. intros A B. pose proof (floor_range x n (n + 1) A B). lia. Qed.
+
+Lemma floor_add_int k s : Qfloor (inject_Z k + s) = k + Qfloor s.
+Proof.
+  apply floor_unique.
+  - rewrite inject_Z_plus. pose proof (Qfloor_le s). lra.
+  - replace (k + Qfloor s + 1) with (k + (Qfloor s + 1)) by lia. rewrite inject_Z_plus.
+    pose proof (Qlt_floor s). lra.
+Qed.
+
+Lemma local_secs_eq md r :
+  (local_secs md r == inject_Z (86400 * date_dn md (tdate r)) + tod_secs (ttod r))%Q.
+Proof. unfold local_secs, instant, qz. ring. Qed.
+
+Lemma local_day md r : normal_tod (ttod r) = true ->
+  Qfloor (local_secs md r / qz 86400) = date_dn md (tdate r).
+Proof.
+  intros N. destruct (tod_secs_range _ N) as [A B].
+  set (n := date_dn md (tdate r)).
+  assert (E : (local_secs md r == 86400 * inject_Z n + tod_secs (ttod r))%Q).
+  { rewrite local_secs_eq. fold n. rewrite inject_Z_mult. reflexivity. }
+  apply floor_unique; rewrite E, ?inject_Z_plus; unfold qz;
+    change (inject_Z 86400) with 86400%Q; change (inject_Z 1) with 1%Q.
+  - apply Qle_shift_div_l; lra.
+  - apply Qlt_shift_div_r; lra.
+Qed.
+
+Lemma local_sod md r : normal_tod (ttod r) = true ->
+  Qfloor (local_secs md r - qz (86400 * Qfloor (local_secs md r / qz 86400))) = Qfloor (tod_secs (ttod r)).
+Proof.
+  intros N. rewrite (local_day md r N). apply Qfloor_comp. rewrite local_secs_eq. unfold qz. ring.
+Qed.
+
+(* the minute the dumper prints *)
+Definition pv_min (t : tod) : Q :=
+  match t with HMS _ m _ | HM _ m => m | HH _ => snd (fst (get_hour_minute_second t)) end.
+
+Lemma tod_fields t : normal_tod t = true ->
+  let T := Qfloor (tod_secs t) in
+  qtrunc (tod_hour t) = T / 3600 /\ qtrunc (pv_min t) = (T / 60) mod 60 /\
+  qtrunc (snd (get_hour_minute_second t)) = T mod 60 /\ 0 <= T < 86400.
+Proof.
+  intros N T. pose proof (hms_spec t N) as H.
+  destruct (get_hour_minute_second t) as [[h m] s] eqn:E.
+  destruct H as (hz & mz & Hh & Hm & Rh & Rm & S1 & S2 & ET).
+  assert (FT : T = 3600 * hz + 60 * mz + Qfloor s).
+  { unfold T. rewrite <- floor_add_int. apply Qfloor_comp. rewrite <- ET, Hh, Hm.
+    rewrite !inject_Z_plus, !inject_Z_mult. change (inject_Z 3600) with 3600%Q. change (inject_Z 60) with 60%Q. ring. }
+  pose proof (floor_range s 0 60 S1 S2) as Fs.
+  assert (Qs : qtrunc s = Qfloor s) by (apply qtrunc_nonneg; exact S1).
+  assert (QH : qtrunc (tod_hour t) = hz /\ qtrunc (pv_min t) = mz).
+  { destruct t as [h0 m0 s0 | h0 m0 | h0]; cbn [get_hour_minute_second tod_hour pv_min] in *.
+    - inversion E; subst. split; apply qtrunc_int; assumption.
+    - inversion E; subst. split; [apply qtrunc_int; assumption|].
+      apply inject_Z_injective. exact Hm.
+    - inversion E; subst. cbn [fst snd]. split; [apply inject_Z_injective; exact Hh|].
+      apply qtrunc_int. exact Hm. }
+  destruct QH as [Q1 Q2]. cbn [snd]. rewrite Q1, Q2, Qs. clearbody T. subst T. repeat split; lia.
+Qed.
+
+Lemma cal_of_dn_year md n : fst (fst (cal_of_dn md n)) = fst (ord_of_dn md n).
+Proof.
+  unfold cal_of_dn. destruct (ord_of_dn md n) as [y doy].
+  destruct (month_of_doy md y 11 1 doy) as [m d]. reflexivity.
+Qed.
+
+(* what the dumper reads from a normal, non-week point: exactly the civil fields *)
+Lemma civil_normal md r : normal_tp md r = true -> rep_kind (tdate r) <> 2 ->
+  let c := civil_at md r in
+  get_calendar_date md (tdate r) = Some (cy c, cm c, cd c) /\
+  get_ordinal_date md (tdate r) = Some (cy c, cdoy c) /\
+  date_year (tdate r) = cy c /\
+  qtrunc (tod_hour (ttod r)) = ch c /\ qtrunc (pv_min (ttod r)) = cmi c /\
+  qtrunc (snd (get_hour_minute_second (ttod r))) = cs c /\
+  valid_cal md (cy c) (cm c) (cd c) = true /\ valid_ord md (cy c) (cdoy c) = true /\
+  0 <= ch c < 24 /\ 0 <= cmi c < 60 /\ 0 <= cs c < 60 /\
+  dn_cal md (cy c) (cm c) (cd c) = date_dn md (tdate r) /\
+  Qfloor (tod_secs (ttod r)) = 3600 * ch c + 60 * cmi c + cs c.
+Proof.
+  intros N K c. destruct (normal_tp_parts md r N) as (VD & NT & VZ).
+  unfold c, civil_at. cbn [cy cm cd cdoy ch cmi cs].
+  rewrite (local_sod md r NT), (local_day md r NT).
+  set (n := date_dn md (tdate r)).
+  destruct (tod_fields _ NT) as (F1 & F2 & F3 & F4). cbv zeta in F1, F2, F3, F4.
+  set (T := Qfloor (tod_secs (ttod r))) in *.
+  pose proof (cal_of_dn_spec md n) as CS. pose proof (ord_of_dn_spec md n) as OS.
+  pose proof (cal_of_dn_year md n) as CY.
+  destruct (cal_of_dn md n) as [[y m] d]. destruct (ord_of_dn md n) as [y' doy]. cbn [fst snd] in *. subst y'.
+  destruct CS as [CV CD]. destruct OS as [OV OD].
+  destruct (CmpSpec.get_calendar_date_spec md _ VD) as (y1 & m1 & d1 & E1 & V1 & D1).
+  destruct (get_ordinal_date_spec md _ VD) as (y2 & doy2 & E2 & V2 & D2).
+  fold n in D1, D2.
+  pose proof (dn_cal_inj md y1 m1 d1 y m d V1 CV ltac:(congruence)) as I1. inversion I1; subst y1 m1 d1.
+  pose proof (dn_ord_inj md y2 doy2 y doy V2 OV ltac:(congruence)) as I2. inversion I2; subst y2 doy2.
+  assert (DY : date_year (tdate r) = y).
+  { destruct (tdate r) as [a b e | a b | a b e]; cbn [date_year get_calendar_date get_ordinal_date rep_kind] in *.
+    - congruence.
+    - congruence.
+    - exfalso. apply K. reflexivity. }
+  repeat split; try assumption; try lia.
+Qed.
+
+(* the civil date-time depends on the instant and the zone only *)
+Lemma civil_at_ext md p r : (instant md p == instant md r)%Q -> tzone p = tzone r -> civil_at md p = civil_at md r.
+Proof.
+  intros I Z. unfold civil_at.
+  assert (L : (local_secs md p == local_secs md r)%Q) by (unfold local_secs; rewrite I, Z; reflexivity).
+  assert (E1 : Qfloor (local_secs md p / qz 86400) = Qfloor (local_secs md r / qz 86400))
+    by (apply Qfloor_comp; rewrite L; reflexivity).
+  rewrite E1.
+  assert (E2 : Qfloor (local_secs md p - qz (86400 * Qfloor (local_secs md r / qz 86400))) =
+               Qfloor (local_secs md r - qz (86400 * Qfloor (local_secs md r / qz 86400))))
+    by (apply Qfloor_comp; rewrite L; reflexivity).
+  rewrite E2.
+  assert (E3 : Qfloor (instant md p - epoch_instant md) = Qfloor (instant md r - epoch_instant md))
+    by (apply Qfloor_comp; rewrite I; reflexivity).
+  rewrite E3, Z. reflexivity.
+Qed.
+
+(* ================================================================== *)
+(* 5. what the dumper prints for each template                         *)
+(* ================================================================== *)
+Ltac pv_tac p := unfold prop_value; destruct (get_hour_minute_second (ttod p)) as [[?h ?mi] ?s]; reflexivity.
+Lemma pv_century md p : prop_value md p "century" = VInt ((Z.abs (date_year (tdate p)) mod 10000) / 100).
+Proof. pv_tac p. Qed.
+Lemma pv_yoc md p : prop_value md p "year_of_century" = VInt (Z.abs (date_year (tdate p)) mod 100).
+Proof. pv_tac p. Qed.
+Lemma pv_month md p : prop_value md p "month_of_year" =
+  match get_calendar_date md (tdate p) with Some (_, m, _) => VInt m | None => VNone end.
+Proof. pv_tac p. Qed.
+Lemma pv_dom md p : prop_value md p "day_of_month" =
+  match get_calendar_date md (tdate p) with Some (_, _, d) => VInt d | None => VNone end.
+Proof. pv_tac p. Qed.
+Lemma pv_doy md p : prop_value md p "day_of_year" =
+  match get_ordinal_date md (tdate p) with Some (_, d) => VInt d | None => VNone end.
+Proof. pv_tac p. Qed.
+Lemma pv_hour md p : prop_value md p "hour_of_day" = VInt (qtrunc (tod_hour (ttod p))).
+Proof. pv_tac p. Qed.
+Lemma pv_minute md p : prop_value md p "minute_of_hour" = VInt (qtrunc (pv_min (ttod p))).
+Proof. unfold prop_value, pv_min. destruct (ttod p); reflexivity. Qed.
+Lemma pv_second md p : prop_value md p "second_of_minute" = VInt (qtrunc (snd (get_hour_minute_second (ttod p)))).
+Proof. unfold prop_value. destruct (get_hour_minute_second (ttod p)) as [[h mi] s]. reflexivity. Qed.
+Lemma pv_zsign md p : prop_value md p "time_zone_sign" =
+  VStr (if (zh (tzone p) <? 0) || (zm (tzone p) <? 0) then "-" else "+").
+Proof. pv_tac p. Qed.
+Lemma pv_zhour md p : prop_value md p "time_zone_hour_abs" = VInt (Z.abs (zh (tzone p))).
+Proof. pv_tac p. Qed.
+Lemma pv_zmin md p : prop_value md p "time_zone_minute_abs" = VInt (Z.abs (zm (tzone p))).
+Proof. pv_tac p. Qed.
+Lemma pv_unix md p : prop_value md p "seconds_since_unix_epoch" =
+  match seconds_since_unix_epoch md p with Some k => VStr (show_Z k) | None => VNone end.
+Proof. pv_tac p. Qed.
+
+Lemma render_app md r : forall a b,
+  render md r (a ++ b) = match render md r a, render md r b with
+                         | Some x, Some y => Some (x ++ y) | _, _ => None end.
+Proof.
+  induction a as [|t a IH]; intros b.
+  - cbn [List.app render]. destruct (render md r b); reflexivity.
+  - cbn [List.app]. destruct t as [s|nm w|nm]; cbn [render]; rewrite IH.
+    + destruct (render md r a), (render md r b); try reflexivity. rewrite sapp_assoc. reflexivity.
+    + destruct (prop_value md r nm); try reflexivity; try (destruct (render md r a); reflexivity).
+      destruct (render md r a), (render md r b); try reflexivity. rewrite sapp_assoc. reflexivity.
+    + destruct (prop_value md r nm); try reflexivity; try (destruct (render md r a); reflexivity).
+      destruct (render md r a), (render md r b); try reflexivity. rewrite sapp_assoc. reflexivity.
+Qed.
+
+(* the posix_dir equations, one per directive *)
+Lemma pd_Y c : posix_dir c "%Y" = posix_year c. Proof. reflexivity. Qed.
+Lemma pd_m c : posix_dir c "%m" = Some (digs 2 (cm c)). Proof. reflexivity. Qed.
+Lemma pd_d c : posix_dir c "%d" = Some (digs 2 (cd c)). Proof. reflexivity. Qed.
+Lemma pd_j c : posix_dir c "%j" = Some (digs 3 (cdoy c)). Proof. reflexivity. Qed.
+Lemma pd_H c : posix_dir c "%H" = Some (digs 2 (ch c)). Proof. reflexivity. Qed.
+Lemma pd_M c : posix_dir c "%M" = Some (digs 2 (cmi c)). Proof. reflexivity. Qed.
+Lemma pd_S c : posix_dir c "%S" = Some (digs 2 (cs c)). Proof. reflexivity. Qed.
+Lemma pd_F c : posix_dir c "%F" =
+  match posix_year c with Some y => Some (y ++ "-" ++ digs 2 (cm c) ++ "-" ++ digs 2 (cd c)) | None => None end.
+Proof. reflexivity. Qed.
+Lemma pd_X c : posix_dir c "%X" = Some (digs 2 (ch c) ++ ":" ++ digs 2 (cmi c) ++ ":" ++ digs 2 (cs c)).
+Proof. reflexivity. Qed.
+Lemma pd_z c : posix_dir c "%z" =
+  Some ((if 60 * czh c + czm c <? 0 then "-" else "+") ++
+        digs 2 (Z.abs (60 * czh c + czm c) / 60) ++ digs 2 (Z.abs (60 * czh c + czm c) mod 60)).
+Proof. reflexivity. Qed.
+Lemma pd_s c : posix_dir c "%s" = Some (decimal (cunix c)). Proof. reflexivity. Qed.
+
+(* the fields of a civil date-time are in the ranges POSIX prints them in *)
+Record civil_ranges (md : mode) (c : civil) : Prop := {
+  cr_year : 0 <= cy c <= 9999;
+  cr_cal : valid_cal md (cy c) (cm c) (cd c) = true;
+  cr_ord : valid_ord md (cy c) (cdoy c) = true;
+  cr_h : 0 <= ch c < 24; cr_mi : 0 <= cmi c < 60; cr_s : 0 <= cs c < 60;
+  cr_zone : valid_zone (mkZone (czh c) (czm c)) = true }.
+
+Lemma civil_small md c : civil_ranges md c ->
+  1 <= cm c <= 12 /\ 1 <= cd c <= 31 /\ 1 <= cdoy c <= 366.
+Proof.
+  intros R. destruct (cal_range _ _ _ _ (cr_cal _ _ R)) as (A & B & _).
+  pose proof (mlen_bounds md (cy c) (cm c) A). pose proof (ord_range _ _ _ (cr_ord _ _ R)) as (C & _).
+  pose proof (ylen_bounds md (cy c)). lia.
+Qed.
+
+Lemma zone_sign_abs a b : valid_zone (mkZone a b) = true ->
+  ((a <? 0) || (b <? 0)) = (60 * a + b <? 0) /\
+  Z.abs (60 * a + b) / 60 = Z.abs a /\ Z.abs (60 * a + b) mod 60 = Z.abs b.
+Proof.
+  unfold valid_zone. cbn [zh zm]. intros V.
+  destruct (0 <? a) eqn:E1; [|destruct (a <? 0) eqn:E2]; repeat split; lia.
+Qed.
+
+Section Render.
+Variables (md : mode) (r : tp) (c : civil).
+Hypothesis HC : get_calendar_date md (tdate r) = Some (cy c, cm c, cd c).
+Hypothesis HO : get_ordinal_date md (tdate r) = Some (cy c, cdoy c).
+Hypothesis HY : date_year (tdate r) = cy c.
+Hypothesis HH : qtrunc (tod_hour (ttod r)) = ch c.
+Hypothesis HM : qtrunc (pv_min (ttod r)) = cmi c.
+Hypothesis HS : qtrunc (snd (get_hour_minute_second (ttod r))) = cs c.
+Hypothesis HZ : tzone r = mkZone (czh c) (czm c).
+Hypothesis R : civil_ranges md c.
+
+Lemma render_shape : forall d v, In (d, v) POSIX_SHAPES ->
+  (d = "%s" -> seconds_since_unix_epoch md r = Some (cunix c)) ->
+  exists s, render md r (fst (fst v)) = Some s /\ posix_dir c d = Some s.
+Proof.
+  intros d v I HU.
+  destruct (civil_small md c R) as (Rm & Rd & Rj).
+  pose proof (cr_year _ _ R) as Ry. pose proof (cr_h _ _ R) as Rh. pose proof (cr_mi _ _ R) as Rmi.
+  pose proof (cr_s _ _ R) as Rs.
+  destruct (zone_sign_abs _ _ (cr_zone _ _ R)) as (Z1 & Z2 & Z3).
+  assert (PY : posix_year c = Some (digs 4 (cy c))).
+  { unfold posix_year. replace ((0 <=? cy c) && (cy c <=? 9999)) with true by lia. reflexivity. }
+  assert (Ecen : Z.abs (cy c) mod 10000 / 100 = cy c / 100) by lia.
+  assert (Eyoc : Z.abs (cy c) mod 100 = cy c mod 100) by lia.
+  unfold POSIX_SHAPES in I. cbn [In] in I.
+  repeat (destruct I as [I|I]; [inversion I; subst d v; clear I; cbn [fst snd render]|]); [..|destruct I];
+    rewrite ?pv_century, ?pv_yoc, ?pv_month, ?pv_dom, ?pv_doy, ?pv_hour, ?pv_minute, ?pv_second,
+            ?pv_zsign, ?pv_zhour, ?pv_zmin, ?pv_unix, ?HC, ?HO, ?HY, ?HH, ?HM, ?HS, ?HZ, ?Ecen, ?Eyoc;
+    cbn [zh zm].
+  - (* %Y *) rewrite pd_Y, PY, digs4_split, !pad_digs_2 by lia. eexists; split; [reflexivity|].
+    rewrite sapp_nil_r. reflexivity.
+  - rewrite pd_m, pad_digs_2 by lia. eexists; split; [reflexivity|]. rewrite sapp_nil_r. reflexivity.
+  - rewrite pd_d, pad_digs_2 by lia. eexists; split; [reflexivity|]. rewrite sapp_nil_r. reflexivity.
+  - rewrite pd_j, pad_digs_3 by lia. eexists; split; [reflexivity|]. rewrite sapp_nil_r. reflexivity.
+  - rewrite pd_H, pad_digs_2 by lia. eexists; split; [reflexivity|]. rewrite sapp_nil_r. reflexivity.
+  - rewrite pd_M, pad_digs_2 by lia. eexists; split; [reflexivity|]. rewrite sapp_nil_r. reflexivity.
+  - rewrite pd_S, pad_digs_2 by lia. eexists; split; [reflexivity|]. rewrite sapp_nil_r. reflexivity.
+  - (* %F *) rewrite pd_F, PY, digs4_split, !pad_digs_2 by lia. eexists; split; [reflexivity|].
+    rewrite ?sapp_assoc, ?sapp_nil_r. reflexivity.
+  - (* %X *) rewrite pd_X, !pad_digs_2 by lia. eexists; split; [reflexivity|].
+    rewrite ?sapp_assoc, ?sapp_nil_r. reflexivity.
+  - (* %z *) rewrite pd_z, Z1, Z2, Z3, !pad_digs_2 by (unfold valid_zone in R; pose proof (cr_zone _ _ R) as V;
+                                                        unfold valid_zone in V; cbn [zh zm] in V; lia).
+    eexists; split; [reflexivity|]. rewrite sapp_nil_r. reflexivity.
+  - (* %s *) rewrite pd_s, (HU eq_refl). eexists; split; [reflexivity|]. rewrite sapp_nil_r. reflexivity.
+Qed.
+
+Definition supported_fmt (items : list fitem) : bool :=
+  forallb (fun it => match it with FDir d => mem d SUPPORTED | FLit _ => true end) items.
+(* some item is one of the directives ds *)
+Definition uses (ds : list string) (items : list fitem) : bool :=
+  existsb (fun it => match it with FDir d => mem d ds | FLit _ => false end) items.
+
+Definition clean (props : list string) : bool :=
+  negb (mem "week_of_year" props) && negb (mem "day_of_week" props) && negb (mem "expanded_year_digits" props).
+Lemma shapes_clean : forallb (fun row => clean (snd (fst (snd row)))) POSIX_SHAPES = true.
+Proof. vm_compute. reflexivity. Qed.
+Lemma mem_app k a b : mem k (a ++ b) = mem k a || mem k b.
+Proof. unfold mem. apply existsb_app. Qed.
+Lemma clean_app a b : clean a = true -> clean b = true -> clean (a ++ b) = true.
+Proof. unfold clean. rewrite !mem_app. intros A B. destruct (mem "week_of_year" a), (mem "day_of_week" a),
+  (mem "expanded_year_digits" a); try discriminate A. exact B. Qed.
+
+Lemma supported_lk d : mem d SUPPORTED = true -> exists v, lk d POSIX_SHAPES = Some v /\ lookup_dir d STRFTIME_TABLE = Some v.
+Proof.
+  intros M. unfold SUPPORTED in M. rewrite <- lk_mem in M.
+  destruct (lk d POSIX_SHAPES) as [v|] eqn:E; [|discriminate]. exists v. split; [reflexivity|].
+  rewrite <- E. apply table_lookup.
+Qed.
+
+Lemma build_render : forall items, supported_fmt items = true ->
+  (uses ["%s"] items = true -> seconds_since_unix_epoch md r = Some (cunix c)) ->
+  exists tmpl props s, build_d STRFTIME_TABLE items = Some (tmpl, props) /\ clean props = true /\
+                       render md r tmpl = Some s /\ posix c items = Some s.
+Proof.
+  induction items as [|it items IH]; intros S HU.
+  - exists [], [], "". repeat split; reflexivity.
+  - cbn [supported_fmt forallb] in S. apply andb_true_iff in S. destruct S as [S1 S2].
+    fold (supported_fmt items) in S2.
+    destruct it as [l|d].
+    + destruct (IH S2 HU) as (t & ps & s & B & C & Rn & P).
+      exists (DLit l :: t), ps, (l ++ s). cbn [build_d render posix]. rewrite B, Rn, P. auto.
+    + destruct (IH S2) as (t & ps & s & B & C & Rn & P).
+      { intros U. apply HU. cbn [uses existsb]. fold (uses ["%s"] items). rewrite U. apply orb_true_r. }
+      destruct (supported_lk d S1) as (v & L1 & L2). destruct v as [[dt dp] pt].
+      pose proof (lk_In _ _ _ L1) as I.
+      destruct (render_shape d _ I) as (s1 & R1 & P1).
+      { intros ->. apply HU. reflexivity. }
+      cbn [fst] in R1.
+      exists (dt ++ t)%list, (dp ++ ps)%list, (s1 ++ s). cbn [build_d posix]. rewrite L2, B, render_app, R1, Rn, P1, P.
+      repeat split; try reflexivity. apply clean_app; [|exact C].
+      pose proof shapes_clean as SC. rewrite forallb_forall in SC. exact (SC _ I).
+Qed.
+
+Lemma dump_with_clean ned tmpl props s : clean props = true -> rep_kind (tdate r) <> 2 ->
+  render md r tmpl = Some s -> dump_with ned md r tmpl props None = DOk s.
+Proof.
+  intros C K Rn. unfold clean in C. apply andb_true_iff in C. destruct C as [C C3].
+  apply andb_true_iff in C. destruct C as [C1 C2]. apply negb_true_iff in C1, C2, C3.
+  unfold dump_with. rewrite C1, C2, C3. cbn [orb andb].
+  assert (W : (match tdate r with Wk _ _ _ => true | _ => false end) = false).
+  { destruct (tdate r); try reflexivity. exfalso. apply K. reflexivity. }
+  rewrite W. cbn [andb]. rewrite HY.
+  pose proof (cr_year _ _ R) as Ry. replace ((0 <=? cy c) && (cy c <=? 9999)) with true by lia.
+  cbn [negb]. rewrite andb_false_r. cbn [orb]. rewrite Rn. reflexivity.
+Qed.
+End Render.
+
+(* ---------- the point strftime actually dumps ---------- *)
+Lemma calendarised md p : valid_tp md p = true ->
+  exists q, (match tdate p with
+             | Wk _ _ _ => match to_calendar_date md (tdate p) with Some d => Some (with_date p d) | None => None end
+             | _ => Some p end) = Some q /\
+            valid_tp md q = true /\ (instant md q == instant md p)%Q /\ rep_kind (tdate q) <> 2 /\ tzone q = tzone p.
+Proof.
+  intros V. destruct (valid_tp_parts md p V) as (VD & VT & VZ).
+  destruct (tdate p) as [y m d | y doy | y w d] eqn:E.
+  - exists p. rewrite E. repeat split; try assumption; try reflexivity. discriminate.
+  - exists p. rewrite E. repeat split; try assumption; try reflexivity. discriminate.
+  - destruct (CmpSpec.get_calendar_date_spec md _ VD) as (y1 & m1 & d1 & E1 & V1 & D1).
+    unfold to_calendar_date. rewrite E1. exists (with_date p (Cal y1 m1 d1)). split; [reflexivity|].
+    unfold with_date. split; [|split; [|split; [discriminate|reflexivity]]].
+    + unfold valid_tp. cbn [tdate ttod tzone valid_date]. rewrite V1, VT, VZ. reflexivity.
+    + unfold instant. cbn [tdate ttod tzone date_dn]. rewrite E, D1. reflexivity.
+Qed.
+
+Lemma epoch_instant_eq md : (instant md unix_ref == epoch_instant md)%Q.
+Proof.
+  unfold instant, unix_ref, epoch_instant, zone_secs. cbn [tdate ttod tzone date_dn tod_secs zh zm].
+  change (0 * 3600 + 0 * 60) with 0. unfold qz. change (inject_Z 0) with 0%Q. ring.
+Qed.
+
+(* %s: Python's int() truncates toward zero, POSIX time_t is rounded down;
+   they agree from the epoch on, and before it on whole seconds *)
+Definition unix_agrees (md : mode) (p : tp) : Prop :=
+  (epoch_instant md <= instant md p)%Q \/ qis_int (instant md p - epoch_instant md) = true.
+
+Lemma unix_value md r : valid_tp md r = true -> unix_agrees md r ->
+  seconds_since_unix_epoch md r = Some (cunix (civil_at md r)).
+Proof.
+  intros V A. destruct (seconds_since_unix_epoch_spec md r V) as (k & E & K1 & K2).
+  rewrite E. f_equal. unfold civil_at. cbn [cunix]. pose proof (epoch_instant_eq md) as EE.
+  destruct A as [A|A].
+  - rewrite K1 by (rewrite EE; exact A). apply Qfloor_comp. rewrite EE. reflexivity.
+  - assert (A' : qis_int (instant md r - instant md unix_ref) = true).
+    { apply qis_int_iff. apply qis_int_iff in A. destruct A as [z Hz]. exists z. rewrite EE. exact Hz. }
+    specialize (K2 A'). rewrite <- (Qfloor_Z k). apply Qfloor_comp. rewrite K2, EE. reflexivity.
+Qed.
+
+(* ================================================================== *)
+(* 6. C17, first sentence                                              *)
+(* ================================================================== *)
+Theorem strftime_posix : forall ned md p fmt c,
+  valid_tp md p = true -> civil_of md p = Some c -> 0 <= cy c <= 9999 ->
+  supported_fmt (split_format fmt "") = true -> stray_pct (split_format fmt "") = false ->
+  (uses ["%s"] (split_format fmt "") = true -> unix_agrees md p) ->
+  exists s, strftime ned STRFTIME_TABLE md p fmt = DOk s /\ posix c (split_format fmt "") = Some s.
+Proof.
+  intros ned md p fmt c V CO Ry S NS HU.
+  unfold civil_of in CO. rewrite V in CO. inversion CO as [CE]. clear CO.
+  destruct (calendarised md p V) as (q & Eq & Vq & Iq & Kq & Zq).
+  destruct (normalised_spec md q Vq) as (Nr & Ir & Kr & _ & Zr).
+  set (r := normalised md q) in *.
+  assert (CE' : civil_at md p = civil_at md r).
+  { apply civil_at_ext; [rewrite Ir, Iq; reflexivity | congruence]. }
+  assert (Kr' : rep_kind (tdate r) <> 2) by congruence.
+  destruct (civil_normal md r Nr Kr') as (HC & HO & HY & HH & HM & HS & VC & VO & Rh & Rm & Rs & _).
+  destruct (normal_tp_parts md r Nr) as (_ & _ & VZ).
+  assert (CR : civil_at md r = c) by congruence.
+  rewrite CR in HC, HO, HY, HH, HM, HS, VC, VO, Rh, Rm, Rs.
+  assert (HZ : tzone r = mkZone (czh c) (czm c)).
+  { rewrite <- CR. unfold civil_at. cbn [czh czm]. destruct (tzone r); reflexivity. }
+  assert (R : civil_ranges md c).
+  { constructor; try assumption. rewrite <- HZ. exact VZ. }
+  assert (HU' : uses ["%s"] (split_format fmt "") = true -> seconds_since_unix_epoch md r = Some (cunix c)).
+  { intros U. rewrite <- CR. apply unix_value; [apply normal_valid; exact Nr|].
+    destruct (HU U) as [A|A]; [left|right].
+    - rewrite Ir, Iq. exact A.
+    - apply qis_int_iff. apply qis_int_iff in A. destruct A as [z Hz]. exists z. rewrite Ir, Iq. exact Hz. }
+  destruct (build_render md r c HC HO HY HH HM HS HZ R _ S HU') as (tmpl & props & s & B & C & Rn & P).
+  exists s. split; [|rewrite ?CE; exact P].
+  rewrite strftime_unfold, B, Eq, NS. fold r.
+  eapply (dump_with_clean md r c); eassumption.
+Qed.
+
+(* ================================================================== *)
+(* 7. strptime on the POSIX text                                       *)
+(* ================================================================== *)
+(* the regex of a supported format, and the text of each group *)
+Definition toks_of (items : list fitem) : list ptok :=
+  flat_map (fun it => match it with
+                      | FLit l => [PLit l]
+                      | FDir d => match lk d POSIX_SHAPES with Some v => snd v | None => [] end
+                      end) items.
+
+Lemma build_p_toks : forall items, supported_fmt items = true -> build_p STRFTIME_TABLE items = Some (toks_of items).
+Proof.
+  induction items as [|it items IH]; intros S; [reflexivity|].
+  cbn [supported_fmt forallb] in S. apply andb_true_iff in S. destruct S as [S1 S2].
+  fold (supported_fmt items) in S2. specialize (IH S2).
+  destruct it as [l|d]; cbn [build_p toks_of flat_map]; fold (toks_of items); rewrite IH; [reflexivity|].
+  destruct (supported_lk d S1) as (v & L1 & L2). rewrite L1, L2. destruct v as [[dt dp] pt]. reflexivity.
+Qed.
+
+Definition zsign (c : civil) : string := if 60 * czh c + czm c <? 0 then "-" else "+".
+Definition zabs (c : civil) : Z := Z.abs (60 * czh c + czm c).
+Definition asg (c : civil) : env :=
+  [("century", digs 2 (cy c / 100)); ("year_of_century", digs 2 (cy c mod 100));
+   ("month_of_year", digs 2 (cm c)); ("day_of_month", digs 2 (cd c)); ("day_of_year", digs 3 (cdoy c));
+   ("hour_of_day", digs 2 (ch c)); ("minute_of_hour", digs 2 (cmi c)); ("second_of_minute", digs 2 (cs c));
+   ("time_zone_sign", zsign c); ("time_zone_hour", digs 2 (zabs c / 60)); ("time_zone_minute", digs 2 (zabs c mod 60))].
+
+Lemma fld_century c : fld "century" (asg c) = digs 2 (cy c / 100). Proof. reflexivity. Qed.
+Lemma fld_yoc c : fld "year_of_century" (asg c) = digs 2 (cy c mod 100). Proof. reflexivity. Qed.
+Lemma fld_month c : fld "month_of_year" (asg c) = digs 2 (cm c). Proof. reflexivity. Qed.
+Lemma fld_dom c : fld "day_of_month" (asg c) = digs 2 (cd c). Proof. reflexivity. Qed.
+Lemma fld_doy c : fld "day_of_year" (asg c) = digs 3 (cdoy c). Proof. reflexivity. Qed.
+Lemma fld_hour c : fld "hour_of_day" (asg c) = digs 2 (ch c). Proof. reflexivity. Qed.
+Lemma fld_minute c : fld "minute_of_hour" (asg c) = digs 2 (cmi c). Proof. reflexivity. Qed.
+Lemma fld_second c : fld "second_of_minute" (asg c) = digs 2 (cs c). Proof. reflexivity. Qed.
+Lemma fld_zsign c : fld "time_zone_sign" (asg c) = zsign c. Proof. reflexivity. Qed.
+Lemma fld_zhour c : fld "time_zone_hour" (asg c) = digs 2 (zabs c / 60). Proof. reflexivity. Qed.
+Lemma fld_zmin c : fld "time_zone_minute" (asg c) = digs 2 (zabs c mod 60). Proof. reflexivity. Qed.
+
+Lemma is_sign_zsign c : is_sign (zsign c) = true.
+Proof. unfold zsign. destruct (60 * czh c + czm c <? 0); reflexivity. Qed.
+
+(* each directive's regex, on the assignment of the civil fields, denotes the
+   POSIX text of the directive *)
+Lemma shape_text c : 0 <= cy c <= 9999 -> forall d v, In (d, v) POSIX_SHAPES -> d <> "%s" ->
+  exists s, posix_dir c d = Some s /\ render_toks (snd v) (asg c) = s /\ wf_assign (snd v) (asg c) = true.
+Proof.
+  intros Ry d v I NS.
+  assert (PY : posix_year c = Some (digs 4 (cy c))).
+  { unfold posix_year. replace ((0 <=? cy c) && (cy c <=? 9999)) with true by lia. reflexivity. }
+  unfold POSIX_SHAPES in I. cbn [In] in I.
+  repeat (destruct I as [I|I]; [inversion I; subst d v; clear I; cbn [fst snd render_toks wf_assign]|]); [..|destruct I];
+    rewrite ?fld_century, ?fld_yoc, ?fld_month, ?fld_dom, ?fld_doy, ?fld_hour, ?fld_minute, ?fld_second,
+            ?fld_zsign, ?fld_zhour, ?fld_zmin, ?digs_digits, ?is_sign_zsign; cbn [andb].
+  - rewrite pd_Y, PY, digs4_split. eexists; split; [reflexivity|]. rewrite ?sapp_assoc, ?sapp_nil_r. auto.
+  - rewrite pd_m. eexists; split; [reflexivity|]. rewrite ?sapp_assoc, ?sapp_nil_r. auto.
+  - rewrite pd_d. eexists; split; [reflexivity|]. rewrite ?sapp_assoc, ?sapp_nil_r. auto.
+  - rewrite pd_j. eexists; split; [reflexivity|]. rewrite ?sapp_assoc, ?sapp_nil_r. auto.
+  - rewrite pd_H. eexists; split; [reflexivity|]. rewrite ?sapp_assoc, ?sapp_nil_r. auto.
+  - rewrite pd_M. eexists; split; [reflexivity|]. rewrite ?sapp_assoc, ?sapp_nil_r. auto.
+  - rewrite pd_S. eexists; split; [reflexivity|]. rewrite ?sapp_assoc, ?sapp_nil_r. auto.
+  - rewrite pd_F, PY, digs4_split. eexists; split; [reflexivity|]. rewrite ?sapp_assoc, ?sapp_nil_r. auto.
+  - rewrite pd_X. eexists; split; [reflexivity|]. rewrite ?sapp_assoc, ?sapp_nil_r. auto.
+  - rewrite pd_z. eexists; split; [reflexivity|]. rewrite ?sapp_assoc, ?sapp_nil_r. auto.
+  - exfalso. apply NS. reflexivity.
+Qed.
+
+Lemma render_toks_app a : forall x y, render_toks (x ++ y) a = render_toks x a ++ render_toks y a.
+Proof. induction x as [|t x IH]; intros y; [reflexivity|]. destruct t; cbn [List.app render_toks]; rewrite IH, ?sapp_assoc; reflexivity. Qed.
+Lemma wf_assign_app a : forall x y, wf_assign (x ++ y) a = wf_assign x a && wf_assign y a.
+Proof. induction x as [|t x IH]; intros y; [reflexivity|]. destruct t; cbn [List.app wf_assign]; rewrite IH, ?andb_assoc; reflexivity. Qed.
+
+(* fixed-width tokens only: no unbounded digit run, no %s group, no literal group *)
+Definition fixedw (ts : list ptok) : bool :=
+  forallb (fun t => match t with PLit _ | PDig _ _ | PSign _ => true | _ => false end) ts.
+Lemma fixedw_simple : forall ts, fixedw ts = true -> simple ts = true.
+Proof.
+  induction ts as [|t ts IH]; intros F; [reflexivity|]. cbn [fixedw forallb] in F.
+  apply andb_true_iff in F. destruct F as [F1 F2]. destruct t; try discriminate F1; cbn [simple]; apply IH; exact F2.
+Qed.
+
+(* what every parseable row satisfies: checked on the shapes *)
+Definition row_parse_ok (pt : list ptok) : bool :=
+  fixedw pt && num_keys_ok DATE_KEYS pt && num_keys_ok TIME_KEYS pt && num_keys_ok ZONE_KEYS pt.
+Lemma shapes_parse_ok :
+  forallb (fun row => String.eqb (fst row) "%s" || row_parse_ok (snd (snd row))) POSIX_SHAPES = true.
+Proof. vm_compute. reflexivity. Qed.
+Lemma row_parse_ok_app x y : row_parse_ok x = true -> row_parse_ok y = true -> row_parse_ok (x ++ y) = true.
+Proof.
+  unfold row_parse_ok, fixedw, num_keys_ok. rewrite !forallb_app. intros A B.
+  repeat (apply andb_true_iff in A; destruct A as [A ?]). repeat (apply andb_true_iff in B; destruct B as [B ?]).
+  repeat (apply andb_true_iff; split); assumption.
+Qed.
+
+Definition parse_fmt (items : list fitem) : bool := supported_fmt items && negb (uses ["%s"] items).
+
+Lemma parse_fmt_cons it items : parse_fmt (it :: items) = true ->
+  parse_fmt items = true /\
+  match it with FLit _ => True | FDir d => mem d SUPPORTED = true /\ d <> "%s" end.
+Proof.
+  unfold parse_fmt. cbn [supported_fmt forallb uses existsb]. fold (supported_fmt items). fold (uses ["%s"] items).
+  intros H. apply andb_true_iff in H. destruct H as [H1 H2]. apply andb_true_iff in H1. destruct H1 as [H0 H1].
+  apply negb_true_iff in H2. apply orb_false_iff in H2. destruct H2 as [H2 H3].
+  rewrite H1, H3. split; [reflexivity|]. destruct it as [l|d]; [exact I|]. split; [exact H0|].
+  intros ->. discriminate H2.
+Qed.
+
+Lemma toks_text c : 0 <= cy c <= 9999 -> forall items, parse_fmt items = true ->
+  exists s, posix c items = Some s /\ render_toks (toks_of items) (asg c) = s /\
+            wf_assign (toks_of items) (asg c) = true /\ row_parse_ok (toks_of items) = true.
+Proof.
+  intros Ry. induction items as [|it items IH]; intros P.
+  - exists "". repeat split; reflexivity.
+  - destruct (parse_fmt_cons _ _ P) as [P' Hit]. destruct (IH P') as (s & E1 & E2 & E3 & E4).
+    destruct it as [l|d]; cbn [toks_of flat_map posix]; fold (toks_of items).
+    + exists (l ++ s). rewrite E1. cbn [List.app render_toks wf_assign]. rewrite E2, E3. repeat split; try reflexivity. exact E4.
+    + destruct Hit as [M NS]. destruct (supported_lk d M) as (v & L1 & _). rewrite L1.
+      pose proof (lk_In _ _ _ L1) as I. destruct (shape_text c Ry d v I NS) as (s1 & F1 & F2 & F3).
+      exists (s1 ++ s). rewrite F1, E1, render_toks_app, wf_assign_app, F2, E2, F3, E3.
+      repeat split; try reflexivity. apply row_parse_ok_app; [|exact E4].
+      pose proof shapes_parse_ok as SP. rewrite forallb_forall in SP. specialize (SP _ I). cbn [fst snd] in SP.
+      apply orb_true_iff in SP. destruct SP as [SP|SP]; [|exact SP]. apply String.eqb_eq in SP. contradiction.
+Qed.
+
+(* which groups a format binds *)
+Lemma binds_app k x y : binds k (x ++ y) = binds k x || binds k y.
+Proof. unfold binds. apply existsb_app. Qed.
+Lemma binds_toks k ds :
+  forallb (fun row => Bool.eqb (binds k (snd (snd row))) (mem (fst row) ds)) POSIX_SHAPES = true ->
+  forall items, supported_fmt items = true -> binds k (toks_of items) = uses ds items.
+Proof.
+  intros C. rewrite forallb_forall in C. induction items as [|it items IH]; intros S; [reflexivity|].
+  cbn [supported_fmt forallb] in S. apply andb_true_iff in S. destruct S as [S1 S2].
+  fold (supported_fmt items) in S2. specialize (IH S2).
+  destruct it as [l|d]; cbn [toks_of flat_map uses existsb]; fold (toks_of items); fold (uses ds items).
+  - cbn [List.app binds existsb tok_name]. fold (binds k (toks_of items)). exact IH.
+  - destruct (supported_lk d S1) as (v & L1 & _). rewrite L1, binds_app, IH. f_equal.
+    specialize (C _ (lk_In _ _ _ L1)). cbn [fst snd] in C. apply Bool.eqb_prop in C. exact C.
+Qed.
+
+Definition nogrp (ts : list ptok) : bool := forallb (fun t => match t with PGrp _ _ => false | _ => true end) ts.
+Lemma fixedw_nogrp ts : fixedw ts = true -> nogrp ts = true.
+Proof.
+  unfold fixedw, nogrp. rewrite !forallb_forall. intros F t I. specialize (F t I). destruct t; try discriminate F; reflexivity.
+Qed.
+Lemma lookup_bindings k a : forall ts, nogrp ts = true ->
+  lookup_env k (bindings ts a) = if binds k ts then Some (fld k a) else None.
+Proof.
+  induction ts as [|t ts IH]; intros N; [reflexivity|]. cbn [nogrp forallb] in N.
+  apply andb_true_iff in N. destruct N as [N1 N2]. specialize (IH N2).
+  destruct t; try discriminate N1; cbn [bindings binds existsb tok_name lookup_env]; fold (binds k ts);
+    try exact IH;
+    (destruct (String.eqb k name) eqn:E; [apply String.eqb_eq in E; subst; reflexivity | exact IH]).
+Qed.
+Lemma lookup_filter (f : string -> bool) k : forall e : env,
+  lookup_env k (filter (fun kv => f (fst kv)) e) = if f k then lookup_env k e else None.
+Proof.
+  induction e as [|[k' v] e IH]; [destruct (f k); reflexivity|].
+  cbn [filter fst lookup_env]. destruct (f k') eqn:F.
+  - cbn [lookup_env]. destruct (String.eqb k k') eqn:E.
+    + apply String.eqb_eq in E. subst. rewrite F. reflexivity.
+    + exact IH.
+  - destruct (String.eqb k k') eqn:E; [|exact IH].
+    apply String.eqb_eq in E. subst. rewrite F in *. exact IH.
 Qed.
